@@ -35,8 +35,16 @@ AppsKinds == {"app_stake", "app_unstake", "app_unjail"}
 PowerReduction  == 1000000
 AppPower(tok)   == tok \div PowerReduction      \* sdk.TokensToConsensusPower
 
-\* chainsim sets codec.UpgradeHeight = 2, OldUpgradeHeight = 1 => GetCodecUpgradeHeight() = 1
-AfterCodecUpgrade(h) == h >= 1
+\* ctx.IsAfterUpgradeHeight(): height >= codec.GetCodecUpgradeHeight() = the height K of the amino -> proto
+\* upgrade.  chainsim sets codec.OldUpgradeHeight = K, UpgradeHeight = K + 1 and logs K as c.codecAt
+\* (default 1: every block is past it).  BEFORE K (the amino era, as on mainnet below 30024):
+\*   - there is no edit-stake: a staked application that stakes again is refused (status);
+\*   - MaxApplications is not enforced; there are no transfers;
+\*   - a matured application is NOT deleted: its record stays, status Unstaked, 0 tokens, and such a
+\*     legacy record may stake again at any later height - through the FRESH-stake path (a brand new
+\*     record: status Staked, jailed cleared), also after K.
+CodecAt(c) == IF "codecAt" \in DOMAIN c THEN c.codecAt ELSE 1
+AfterCodecUpgrade(c, h) == h >= CodecAt(c)
 
 \* ---- stateless validation (types/msg.go) ---------------------------------
 \* ValidateNetworkIdentifier: 1..2 bytes of hex.  Chain ids are opaque strings here; the
@@ -64,7 +72,7 @@ AppsBasicOK(tx) ==
 \* for an unstaking signer; this module therefore carries its own copy.)
 AppsIsMsgAppTransfer(s, c, tx, h) ==
     /\ tx.kind = "app_stake"
-    /\ AfterCodecUpgrade(h) /\ Active(c, "AppTransfer", h)
+    /\ AfterCodecUpgrade(c, h) /\ Active(c, "AppTransfer", h)
     /\ TransferShape(tx)
     /\ tx.signer # "" /\ tx.signer # tx.app
     /\ tx.signer \in DOMAIN s.app
@@ -149,7 +157,7 @@ NewAppRec(chains) == [status |-> STAKED, jailed |-> FALSE, tokens |-> 0, chains 
 \* chains / value; a non-transfer-shaped message can only reach the handler signed by
 \* tx.app itself, and then either the signer is not an application or the target exists.
 TransferValid(s, c, tx, h) ==
-    /\ AfterCodecUpgrade(h) /\ Active(c, "AppTransfer", h)
+    /\ AfterCodecUpgrade(c, h) /\ Active(c, "AppTransfer", h)
     /\ tx.signer \in DOMAIN s.app /\ s.app[tx.signer].status = STAKED
     /\ tx.app \notin DOMAIN s.app
 
@@ -172,12 +180,12 @@ StakeError(s, c, tx, h) ==
     LET a == tx.app
         found == a \in DOMAIN s.app
     IN IF Len(tx.chains) > MaxAppChains(c) THEN "toomanychains"
-       ELSE IF found /\ AfterCodecUpgrade(h) /\ s.app[a].status = STAKED
+       ELSE IF found /\ AfterCodecUpgrade(c, h) /\ s.app[a].status = STAKED
               THEN EditError(s, s.app[a], a, tx.amount)
        ELSE IF found /\ s.app[a].status # UNSTAKED THEN "status"
        ELSE IF tx.amount < MinStake(c) THEN "minstake"
        ELSE IF BalOf(s, a) < tx.amount THEN "coins"
-       ELSE IF AfterCodecUpgrade(h) /\ StakedCount(s) >= MaxApps(c) THEN "maxapps"
+       ELSE IF AfterCodecUpgrade(c, h) /\ StakedCount(s) >= MaxApps(c) THEN "maxapps"
        ELSE "ok"
 
 \* EditStakeApplication
@@ -195,7 +203,7 @@ EditStake(s, c, a, chains, amount, orc) ==
 \* StakeApplication
 StakeApp(s, c, tx, h, orc) ==
     LET a == tx.app IN
-    IF AfterCodecUpgrade(h) /\ a \in DOMAIN s.app /\ s.app[a].status = STAKED
+    IF AfterCodecUpgrade(c, h) /\ a \in DOMAIN s.app /\ s.app[a].status = STAKED
       THEN EditStake(s, c, a, tx.chains, tx.amount, orc)
       ELSE LET s1 == Move(s, a, APPPOOL, tx.amount)
                r  == [NewAppRec(tx.chains) EXCEPT !.tokens = tx.amount, !.maxRelays = Relays(c, tx.amount, orc)]
@@ -204,7 +212,7 @@ StakeApp(s, c, tx, h, orc) ==
 \* request class, for attribution of a divergence to a property
 StakeClass(s, c, tx, h) ==
     IF TransferValid(s, c, tx, h) THEN "transfer"
-    ELSE IF tx.app \in DOMAIN s.app /\ s.app[tx.app].status = STAKED THEN "edit"
+    ELSE IF tx.app \in DOMAIN s.app /\ s.app[tx.app].status = STAKED THEN "edit"     \* (refused before the codec upgrade)
     ELSE IF tx.signer # tx.app THEN "transfer"      \* a transfer request that is refused
     ELSE "new"
 
@@ -267,29 +275,45 @@ AppsClass(s, c, tx, h) ==
 
 \* ---- EndBlock (keeper/abci.go EndBlocker -> unstakeAllMatureApplications) -------
 \* every queue slot with time <= block time, ascending; inside a slot the stored order
-RECURSIVE FinishSlot(_, _, _)
-FinishSlot(s, names, h) ==
+RECURSIVE FinishSlot(_, _, _, _)
+FinishSlot(s, c, names, h) ==
     IF names = <<>> THEN s
     ELSE LET a == Head(names) IN
-         IF a \notin DOMAIN s.app THEN FinishSlot(s, Tail(names), h)
+         IF a \notin DOMAIN s.app THEN FinishSlot(s, c, Tail(names), h)
          ELSE LET r == s.app[a] IN
-              IF r.status # UNSTAKING \/ r.jailed THEN FinishSlot(s, Tail(names), h)   \* ValidateApplicationFinishUnstaking
+              IF r.status # UNSTAKING \/ r.jailed THEN FinishSlot(s, c, Tail(names), h)   \* ValidateApplicationFinishUnstaking
               ELSE \* FinishUnstakingApplication
                    LET s1 == DelUnstakingApp(s, a, r)
                        \* coinsFromStakedToUnstaked: an error is logged and unstaking continues
                        s2 == IF BalOf(s1, APPPOOL) >= r.tokens THEN Move(s1, APPPOOL, a, r.tokens) ELSE s1
                        s3 == SetApp(s2, a, [r EXCEPT !.status = UNSTAKED, !.tokens = 0, !.maxRelays = 0, !.unstakeAt = 0])
-                       s4 == IF AfterCodecUpgrade(h) THEN DelApp(s3, a) ELSE s3
-                   IN FinishSlot(s4, Tail(names), h)
+                       s4 == IF AfterCodecUpgrade(c, h) THEN DelApp(s3, a) ELSE s3
+                   IN FinishSlot(s4, c, Tail(names), h)
 
-RECURSIVE FinishSlots(_, _, _)
-FinishSlots(s, slots, h) ==
+RECURSIVE FinishSlots(_, _, _, _)
+FinishSlots(s, c, slots, h) ==
     IF slots = <<>> THEN s
     ELSE LET e  == Head(slots)
-             s1 == FinishSlot(s, e[2], h)
-         IN FinishSlots([s1 EXCEPT !.appUnst = QDel(@, e[1])], Tail(slots), h)      \* store.Delete(slot key)
+             s1 == FinishSlot(s, c, e[2], h)
+         IN FinishSlots([s1 EXCEPT !.appUnst = QDel(@, e[1])], c, Tail(slots), h)      \* store.Delete(slot key)
 
-AppsEndBlock(s, c, h, t) == FinishSlots(s, SelectSeq(s.appUnst, LAMBDA e : e[1] <= t), h)
+\* ---- BeginBlock ON the codec upgrade height (keeper.UpgradeCodec -> ConvertState) ------------------
+\* Every application is re-saved in the new encoding through SetApplication, which APPENDS an unstaking
+\* application to its queue slot once more.  The duplicates are harmless: deleteUnstakingApplication
+\* drops every occurrence and the maturity walk skips names whose record is gone.  (Re-saved in store
+\* order = address order, which the symbolic names do not show: judged per slot as a bag.)
+RECURSIVE DistinctSeq(_)
+DistinctSeq(q) == IF q = <<>> THEN <<>>
+                  ELSE <<Head(q)>> \o DistinctSeq(SelectSeq(Tail(q), LAMBDA x : x # Head(q)))
+ConvertQueue(s) ==
+    [i \in 1..Len(s.appUnst) |->
+        <<s.appUnst[i][1],
+          s.appUnst[i][2] \o SelectSeq(DistinctSeq(s.appUnst[i][2]),
+                                       LAMBDA a : a \in DOMAIN s.app /\ s.app[a].status = UNSTAKING
+                                                  /\ s.app[a].unstakeAt = s.appUnst[i][1])>>]
+AppsBeginBlock(s, c, h) == IF h = CodecAt(c) THEN [s EXCEPT !.appUnst = ConvertQueue(s)] ELSE s
+
+AppsEndBlock(s, c, h, t) == FinishSlots(s, c, SelectSeq(s.appUnst, LAMBDA e : e[1] <= t), h)
 
 -----------------------------------------------------------------------------
 (***************************************************************************)
@@ -302,7 +326,9 @@ AppsFocus(x) == [bal |-> x.bal, supply |-> x.supply, nopk |-> x.nopk,
 \* (known finding: anyone can send coins to a module account address)
 Inv_C20(s, donated) == BalOf(s, APPPOOL) = AppStakeSum(s) + donated
 
-\* the lookup indexes agree with the records (C28 counts the index, C24 walks the queue)
+\* the lookup indexes agree with the records (C28 counts the index, C24 walks the queue).  A name may
+\* occur more than once in its queue slot (state conversion at the codec upgrade height): every
+\* occurrence refers to the same, correctly stated record.
 AppIxExpected(s) == {<<a, AppPower(s.app[a].tokens)>> :
                         a \in {x \in DOMAIN s.app : s.app[x].status = STAKED /\ ~s.app[x].jailed}}
 QueueNames(q) == UNION {SeqToSet(q[i][2]) : i \in 1..Len(q)}
@@ -312,7 +338,6 @@ Inv_AppIndex(s) ==
        /\ \A i \in 1..Len(q) :
             /\ q[i][2] # <<>>
             /\ i > 1 => q[i - 1][1] < q[i][1]
-            /\ Cardinality(SeqToSet(q[i][2])) = Len(q[i][2])
             /\ \A x \in SeqToSet(q[i][2]) :
                  x \in DOMAIN s.app /\ s.app[x].status = UNSTAKING /\ s.app[x].unstakeAt = q[i][1]
        /\ \A a \in DOMAIN s.app : s.app[a].status = UNSTAKING => a \in QueueNames(q)
@@ -345,15 +370,17 @@ OnlyFee(pre, tx, post) == AppsFocus(post) = AppsFocus(ChargeFee(pre, tx))
 NStaked(s) == Cardinality({a \in DOMAIN s.app : s.app[a].status = STAKED /\ ~s.app[a].jailed})
 Funds(pre, tx, a) == BalOf(pre, a) - (IF tx.signer = a THEN tx.fee ELSE 0)
 
-\* C28: admission of a NEW application
-Step_C28_New(pre, c, tx, post, ok) ==
+\* C28: admission of an application that holds no stake: no record, or a legacy record left Unstaked
+\* by a maturation before the codec upgrade.  h = height of the block (MaxApplications is enforced by
+\* the code only from the codec upgrade height on).
+Step_C28_NewAt(pre, c, tx, h, post, ok) ==
     LET a == tx.app IN
-    (tx.kind = "app_stake" /\ tx.signer = a /\ a \notin DOMAIN pre.app) =>
+    (tx.kind = "app_stake" /\ tx.signer = a /\ (a \notin DOMAIN pre.app \/ pre.app[a].status = UNSTAKED)) =>
       /\ ok <=> /\ tx.amount >= MinStake(c)
                 /\ tx.chains # <<>> /\ Len(tx.chains) <= MaxAppChains(c)
                 /\ \A i \in 1..Len(tx.chains) : ChainIdOK(tx.chains[i])
                 /\ Funds(pre, tx, a) >= tx.amount
-                /\ NStaked(pre) < MaxApps(c)
+                /\ AfterCodecUpgrade(c, h) => NStaked(pre) < MaxApps(c)
       /\ ok => /\ a \in DOMAIN post.app
                /\ post.app[a].status = STAKED /\ ~post.app[a].jailed /\ post.app[a].pubkeyOK
                /\ post.app[a].tokens = tx.amount /\ post.app[a].chains = tx.chains
@@ -361,8 +388,10 @@ Step_C28_New(pre, c, tx, post, ok) ==
                /\ RelaysExact(c) => post.app[a].maxRelays = CalcRelays(c, tx.amount)
                /\ BalOf(post, APPPOOL) = BalOf(pre, APPPOOL) + tx.amount
                /\ BalOf(post, a) = BalOf(pre, a) - tx.fee - tx.amount
-               /\ \A b \in DOMAIN pre.app : b \in DOMAIN post.app /\ post.app[b] = pre.app[b]
+               /\ \A b \in DOMAIN pre.app \ {a} : b \in DOMAIN post.app /\ post.app[b] = pre.app[b]
       /\ ~ok => OnlyFee(pre, tx, post)
+\* (for users that only run past the codec upgrade height)
+Step_C28_New(pre, c, tx, post, ok) == Step_C28_NewAt(pre, c, tx, CodecAt(c), post, ok)
 
 \* C28 on the EDIT path: the admission limits that still apply to an already staked application
 \* (the minimum cannot be undercut there: the stake never goes down, C23)
@@ -433,14 +462,19 @@ Step_C24_Deliver(pre, c, tx, t, post, ok) ==
 \* their own address, and their records disappear; everything else stays.
 \* (Scenarios of this module never unstake NODES, so no other account moves at EndBlock.)
 Due(pre, t) == {a \in DOMAIN pre.app : pre.app[a].status = UNSTAKING /\ pre.app[a].unstakeAt <= t}
-Step_C24_EndBlock(pre, t, post) ==
+Step_C24_EndBlockAt(pre, c, h, t, post) ==
     LET due == Due(pre, t)
         paid == SumOver([a \in due |-> pre.app[a].tokens], due)
-    IN /\ DOMAIN post.app = DOMAIN pre.app \ due
-       /\ \A a \in DOMAIN post.app : post.app[a] = pre.app[a]
+    IN /\ IF AfterCodecUpgrade(c, h)
+            THEN /\ DOMAIN post.app = DOMAIN pre.app \ due
+            ELSE \* amino era: the record stays, emptied (status Unstaked, no tokens, no allowance, no time)
+                 /\ DOMAIN post.app = DOMAIN pre.app
+                 /\ \A a \in due : post.app[a] = [pre.app[a] EXCEPT !.status = UNSTAKED, !.tokens = 0, !.maxRelays = 0, !.unstakeAt = 0]
+       /\ \A a \in DOMAIN pre.app \ due : a \in DOMAIN post.app /\ post.app[a] = pre.app[a]
        /\ \A a \in due : BalOf(post, a) = BalOf(pre, a) + pre.app[a].tokens
        /\ BalOf(post, APPPOOL) = BalOf(pre, APPPOOL) - paid
        /\ \A x \in (DOMAIN pre.bal \cup DOMAIN post.bal) \ (due \cup {APPPOOL}) : BalOf(post, x) = BalOf(pre, x)
        /\ post.supply = pre.supply
        /\ Inv_C24_NoOverdue(post, t)
+Step_C24_EndBlock(pre, t, post) == Step_C24_EndBlockAt(pre, [codecAt |-> 1], 1, t, post)
 =============================================================================
